@@ -187,6 +187,14 @@ func (r *runner) runPairWith(g *geom, idx *s2.ShapeIndex, t *tgt, nopts int, wan
 			r.violate("EdgeQuery.reportedDistance.outOfRange", fmt.Sprintf("%s target, %s, %s path, index %s: %s", dir, t.kind, path, g.desc, msg), replayOf(g, t, q))
 			continue
 		}
+		if dup := duplicateEdge(rs); dup != "" {
+			kind := "EdgeQuery.FindEdges.duplicateEdge"
+			if t.far {
+				kind = "EdgeQuery.FindEdges.furthestDuplicates"
+			}
+			r.violate(kind, fmt.Sprintf("%s target, %s, %s path, index %s: %s (%d results for %d edges)", dir, t.kind, path, g.desc, dup, len(rs), len(edges)), replayOf(g, t, q))
+			continue
+		}
 		if msg := checkResults(t, q, rs, edges, interiors); msg != "" {
 			r.violate("EdgeQuery.FindEdges."+path, fmt.Sprintf("%s target, %s, %s path, index %s: %s", dir, t.kind, path, g.desc, msg), replayOf(g, t, q))
 		}
@@ -299,6 +307,19 @@ func (r *runner) checkScalar(g *geom, idx *s2.ShapeIndex, t *tgt, q qopts, query
 	if msg := checkResults(t, q, rs, edges, interiors); msg != "" {
 		r.violate("EdgeQuery.FindEdges.afterScalarCalls", fmt.Sprintf("%s target, %s, index %s: after Distance/IsDistance* calls: %s", dir, t.kind, g.desc, msg), replayOf(g, t, q))
 	}
+}
+
+// duplicateEdge: the same (shape, edge) reported more than once.
+func duplicateEdge(rs []s2.EdgeQueryResult) string {
+	seen := map[[2]int32]bool{}
+	for _, r := range rs {
+		id := [2]int32{r.ShapeID(), r.EdgeID()}
+		if seen[id] {
+			return fmt.Sprintf("edge (%d,%d) is reported more than once", id[0], id[1])
+		}
+		seen[id] = true
+	}
+	return ""
 }
 
 // outOfRange: a reported distance that is not a chord angle in [0, 4].
